@@ -13,7 +13,7 @@ ASSUMPTIONS = ["reference secp256k1 / Base58Check in vf/ref", "SEC1 hybrid/compa
 NSHARDS = {"quick": 32, "thorough": 64}
 BUDGET_S = {"quick": 200, "thorough": 1800}
 MIN_HITS = {
-    'quick': {"key": 128, "edge_key": 42, "addr_hash": 1472, "leading_zero_hash": 1280, "addr_corrupt": 1440, "addr_len": 400, "wif_corrupt": 2560, "pub_candidate": 880, "pub_offcurve": 484, "unlock": 128, "prefix_nonzero": 972},
+    'quick': {"key": 128, "edge_key": 42, "addr_hash": 1472, "leading_zero_hash": 1280, "addr_corrupt": 1440, "addr_len": 760, "wif_corrupt": 2560, "pub_candidate": 880, "pub_offcurve": 455, "unlock": 128, "prefix_nonzero": 972},
     'thorough': {"key": 23040, "addr_hash": 38860, "leading_zero_hash": 36864, "addr_corrupt": 276480, "wif_corrupt": 460800, "pub_candidate": 115200, "pub_offcurve": 61788, "unlock": 23040},
 }
 EDGE = [1, 2, 3, (ec.N - 1) // 2, (ec.N + 1) // 2, ec.N - 2, ec.N - 1]
@@ -91,6 +91,19 @@ def cases(ctx):
         yield {"k": "addr_corrupt", "s": s + r.choice(base58.ALPHABET)}
         for body in (h[:19], h + b"\x00", h[:1], b"", h + h):
             yield {"k": "addr_len", "s": base58.check_encode(bytes([prefix]) + body)}
+        # a valid address / WIF whose LAST decoded byte is dropped or duplicated: search for payloads whose checksum ends in 0x00 / starts
+        # conveniently so that the shortened string still looks plausible (these are 24- or 26-byte decodes)
+        for _ in range(400):
+            hh = gen.rbytes(r, 20)
+            full = bytes([prefix]) + hh + hashes.sha256d(bytes([prefix]) + hh)[:4]
+            if full[-1] == 0:
+                yield {"k": "addr_len", "s": base58.encode(full[:-1])}
+                yield {"k": "addr_len", "s": base58.encode(full + b"\x00")}
+                break
+        full = bytes([prefix]) + h + hashes.sha256d(bytes([prefix]) + h)[:4]
+        yield {"k": "addr_len", "s": base58.encode(full[:-1])}
+        yield {"k": "addr_len", "s": base58.encode(full + bytes([full[-1]]))}
+        yield {"k": "addr_len", "s": base58.encode(full[1:])}
     for i in range(12000 if t else 55):
         kind = r.choice(["on", "on_u", "off", "off_u", "xgep", "ident", "tag", "len", "rand33", "rand65", "y_wrong"])
         x = r.randrange(1, ec.N)
@@ -151,6 +164,14 @@ def judge(ctx, case):
             if got != exp:
                 ctx.viol("private key accessor %s differs from the reference" % name, {"got": str(got)[:120], "exp": str(exp)[:120]})
         ctx.ev()
+        # the compression flag flipped AFTER a public key was derived from the object, and flipped back
+        ctx.ev()
+        fl = o.get("flipped", {})
+        if fl.get("pub") != ec.ser(Q, not comp).hex() or fl.get("wif") != ref_wif(x, not comp) or fl.get("point") != ec.ser(Q, not comp).hex():
+            ctx.viol("after to_public_key() and then compress_public_key(flipped) the derived public key / WIF have the wrong form", {"got": str(fl)[:300]})
+        bk = o.get("back", {})
+        if bk.get("pub") != pub.hex() or bk.get("wif") != wif:
+            ctx.viol("flipping the compression flag twice does not restore the original public key / WIF", {"got": str(bk)[:300]})
         if o["from_private_key"] != pub.hex():
             ctx.viol("private key accessor PublicKey::from_private_key differs from the reference", {"got": o["from_private_key"][:140], "exp": pub.hex()[:140]})
         for req, what in (({"op": "privkey", "wif": wif}, "from_wif"), ({"op": "privkey", "hex_str": case["x"], "compressed": comp}, "from_hex")):
